@@ -9,6 +9,7 @@ duplicates, ids never issued, any timing of deadlines and drops); nothing is bou
 import KafkaVerif.Model.ConnMux
 import KafkaVerif.Model.TransportConn
 import KafkaVerif.Lemmas.BatchBytes
+import KafkaVerif.Gen.MuxFacts
 
 namespace KV.C06
 open KV KV.ConnMux
@@ -818,5 +819,32 @@ theorem batch_close_leaves_next_frame (expired : Bool) (v : Nat) (offset : Int) 
   ((batch_close_consumes_frame expired v offset fuel ops s hwf).1.consumed_all hz).2
 
 end BatchBytes
+
+/-! ## Part 4 — the structural facts the models stand on, re-read from the source on every run
+
+`go/extract/muxfacts` parses conn.go, batch.go, transport.go, protocol/conn.go and protocol/roundtrip.go (never
+runs them) and writes `Gen/MuxFacts.lean`.  Each fact is a SHAPE (fields and methods by name, locals and
+parameters by position and data flow), so behaviour-preserving edits leave it true.  What each one carries:
+
+* `idAndWriteUnderWlock`, `idIncrementedOnceByOne` — `Event.write` is one atomic step that numbers the call
+  `nextSeq + 1` and puts exactly that id on the wire (`write_id_fresh`, `ids_unique_inflight`).
+* `takeOnlyOnIdMatch` — `Event.take` requires `f.id = wire seq` (`own_response_or_error`).
+* `peekErrorCloses`, `bodyErrorClosesUnlessKafka` — `peekErr` and `finish io` close the conn (`timeout_closes`,
+  `unreadable_body_closes`): a frame is consumed whole or the conn is closed.
+* `batchCloseDiscards`, `discardRewindsToWire`, `batchCloseKeepsOnlyKafkaOrShortBuffer`, `readValueAccountsBytes`,
+  `messageSetSizeFromHeader` — the steps of Model/BatchBytes.lean (`batchClose`, `valOfRead`, `openBatch`) that
+  `batch_close_consumes_frame` composes.
+* `failedExchangeEndsRun`, `releaseInsideRun` — TransportConn: `done err` leads to `finished false`, from which only
+  `exit` is possible (`failed_exchange_drops`, `no_leftover_in_pool`).
+* `idgenAdvancesPerExchange`, `roundTripChecksId` — TransportConn: `recv` increments `idgen`, `done ok` requires
+  `f.id = wire idgen` (`transport_own_response`). -/
+theorem structural_facts_hold :
+    Gen.MuxFacts.idAndWriteUnderWlock = true ∧ Gen.MuxFacts.idIncrementedOnceByOne = true ∧
+    Gen.MuxFacts.takeOnlyOnIdMatch = true ∧ Gen.MuxFacts.peekErrorCloses = true ∧
+    Gen.MuxFacts.bodyErrorClosesUnlessKafka = true ∧ Gen.MuxFacts.batchCloseDiscards = true ∧
+    Gen.MuxFacts.batchCloseKeepsOnlyKafkaOrShortBuffer = true ∧ Gen.MuxFacts.readValueAccountsBytes = true ∧
+    Gen.MuxFacts.messageSetSizeFromHeader = true ∧ Gen.MuxFacts.failedExchangeEndsRun = true ∧
+    Gen.MuxFacts.releaseInsideRun = true ∧ Gen.MuxFacts.idgenAdvancesPerExchange = true ∧
+    Gen.MuxFacts.roundTripChecksId = true ∧ Gen.MuxFacts.discardRewindsToWire = true := by decide
 
 end KV.C06
